@@ -208,7 +208,28 @@ def c17_jobs(tier, seed):
     return j
 
 
+def c06_jobs(tier, seed):
+    q = tier == "quick"
+    s = 25 if q else 300
+    j = []
+    j += shards("dbg", "w_ports", "c06 --svc local --d1 120 --d2 30 --rand 20", 2 if q else 3, s, seed)
+    j += shards("dbg", "w_ports", "c06 --svc ipc --d1 120 --d2 30 --rand 20", 3 if q else 4, s, seed, first=10)
+    j += shards("rel", "w_ports", "c06 --svc local --d1 120 --d2 30 --rand 20", 1 if q else 2, s, seed, first=20)
+    j += shards("rel", "w_ports", "c06 --svc ipc --d1 120 --d2 30 --rand 20", 1 if q else 2, s, seed, first=30)
+    j += shards("tsan", "w_ports", "c06 --svc local --d1 40 --d2 10 --rand 10", 1 if q else 2, s, seed, first=40)
+    j += shards("dbg", "w_ports", "c06p", 2 if q else 4, s, seed, first=50)
+    j += shards("rel", "w_ports", "c06p", 1 if q else 2, s, seed, first=60)
+    return j
+
+
 PROPS = {
+    "C06": {
+        "level": "exploration",
+        "jobs": c06_jobs,
+        "rule": "one execution = one existence epoch of one service name, for each of the four messaging patterns on local_threadsafe and ipc_threadsafe services: 2-4 racers (threads with their own node; in the c06p jobs separate processes) create / open (polling until the creators are done) / open_or_create the same name, every creator asking for a different value of one setting (max subscribers / listeners / clients / readers); all handles are held over a barrier, a checker samples does_exist and opens the service from a fresh node, then everything is dropped and the name is re-created with other settings. Thread races run with the hook off, under sampled depth-1 stall plans at every hooked atomic operation of every racer, depth-2 plans and random delays (debug, release, TSan); process races run with random delays at the hooked atomics. Verdict per epoch: at most one create() succeeded; all handles show the same setting and it is one a creator asked for; every handle can create a port; only documented race errors (AlreadyExists, IsBeingCreatedByAnotherInstance, DoesNotExist, IsMarkedForDestruction, requirement mismatch of an open_or_create that lost) occurred; somebody created; does_exist == (a handle is held); after the last drop does_exist is false, no service file or segment remains, the name is creatable and shows the new setting. Sequential part: compatibility grids per pattern (18 + 22 + 27 + 10 cases of creator settings x opener requirement incl. payload/header/key types and wrong pattern) with the documented result for each and, after every case, unchanged static config and a working round trip through the creator's own ports. Non-trivial = an epoch in which two racers obtained the service or a creator lost against another; distinct = distinct (pattern, roles, interleaving signature, outcome vector).",
+        "assumptions": COMMON_ASSUMPTIONS + ["the pairwise product of ALL settings is reduced to one requirement at a time against one creator configuration per pattern (each verify_service_configuration branch is reached from both sides)", "process-level races are perturbed by start jitter and random delays only; crash points inside creation are C04's subject"],
+        "floor": (100, 40),
+    },
     "C09": {
         "level": "exploration",
         "jobs": c09_jobs,
